@@ -138,7 +138,8 @@ KINDS = {
                       {"divide": 5}, {"scale": 5}),
     "pkl": Kind("pkl", ".pkl", lambda c: {"payload": c, "blob": bytes(range(c * 3))}, lambda a, b: a == b, pickle_handler),
     "pkl.zip": Kind("pkl.zip", ".pkl.zip", lambda c: {"payload": c, "blob": bytes(range(c * 3))}, lambda a, b: a == b, pickle_handler),
-    "pkl-post": Kind("pkl-post", ".pkl", lambda c: {"payload": c}, lambda a, b: isinstance(b, dict) and b.get("post_read") is True and b.get("data") == a, pickle_handler),
+    "pkl-post": Kind("pkl-post", ".pkl", lambda c: {"payload": c}, lambda a, b: isinstance(b, dict) and b.get("post_read") is True and b.get("path_ok") is True and b.get("data") == a, pickle_handler),
+    "pkl-post.gz": Kind("pkl-post.gz", ".pkl.gz", lambda c: {"payload": c}, lambda a, b: isinstance(b, dict) and b.get("post_read") is True and b.get("path_ok") is True and b.get("data") == a, pickle_handler),
     "nc": Kind("nc", ".nc", dataset_content, ds_same),
     "nc.gz": Kind("nc.gz", ".nc.gz", dataset_content, ds_same),
     "ncrich": Kind("ncrich", ".nc", rich_content, ds_same),
@@ -162,6 +163,7 @@ CONFIGS = [
     ("full", "full", 2, 0, "pkl", "pkl", False),           # day-of-year spelling of start and end across New Year
     ("full", "full", 1, 2, "nc", "nc", False),
     ("full", "noend", 0, 1, "pkl-post", "pkl-post", False),   # post_reader is applied on every read, and only on reads
+    ("full", "noend", 1, 0, "pkl-post.gz", "pkl-post.gz", False),   # post_reader on compressed files
     ("full", "full", 0, 1, "ncgrp", "ncgrp", False),          # group-only NetCDF data whose structure changes when a period is overwritten
     ("full", "full", 0, 1, "pkl-args", "pkl-bound", True),    # read_args / write_args reach plain and bound-method user functions
     ("full", "noend", 1, 0, "pkl-bound", "pkl-bound", False),
@@ -170,7 +172,9 @@ CONFIGS = [
 
 def post_reader(file_info, data):
     """post-processing hook of the fileset: marks what it has seen (the harness' equality requires the mark)"""
-    return {"post_read": True, "data": data}
+    # (the FileInfo handed to the hook names the fileset's own file - not a temporary decompressed copy)
+    return {"post_read": True, "data": data,
+            "path_ok": os.path.exists(file_info.path) and os.path.basename(file_info.path).split(".", 1)[-1] in ("pkl", "pkl.gz")}
 
 
 class Side:
@@ -187,7 +191,7 @@ class Side:
             kw["read_args"] = self.kind.read_args
         if self.kind.write_args:
             kw["write_args"] = self.kind.write_args
-        if self.kind.name == "pkl-post":
+        if self.kind.name.startswith("pkl-post"):
             kw["post_reader"] = post_reader
         self.fs = FileSet(self.tmpl, name="side-" + os.path.basename(root), **kw)
 
